@@ -86,7 +86,7 @@ func (t escapeMapping) Transform(dst, src []byte, atEOF bool) (nDst, nSrc int, e
 			n := copy(dst[nDst:], src[nSrc:nSrc+idx])
 			nDst += n
 			nSrc += n
-			if n != idx-nSrc {
+			if n != idx || len(dst)-nDst < 3 {
 				return nDst, nSrc, transform.ErrShortDst
 			}
 			c := src[nSrc]
@@ -157,10 +157,13 @@ func (unescapeMapping) Span(src []byte, atEOF bool) (n int, err error) {
 			}
 			return n, transform.ErrShortSrc
 		case len(src) - 2:
-			if atEOF || !ishex(src[n+1]) {
-				return len(src), nil
+			if !atEOF && ishex(src[n+1]) {
+				return n, transform.ErrShortSrc
 			}
-			return n, transform.ErrShortSrc
+			// The next byte cannot be part of an escape sequence starting here, but
+			// it may start one itself.
+			n++
+			continue
 		}
 
 		if shouldUnescape(src[n+1 : n+3]) {
@@ -197,16 +200,7 @@ func (t unescapeMapping) Transform(dst, src []byte, atEOF bool) (nDst, nSrc int,
 				return nDst, nSrc, transform.ErrShortDst
 			}
 			return nDst, nSrc, transform.ErrShortSrc
-		case idx == len(src[nSrc:])-2:
-			if atEOF || !ishex(src[nSrc+idx+1]) {
-				n := copy(dst[nDst:], src[nSrc:])
-				nDst += n
-				nSrc += n
-				if nSrc < len(src) {
-					return nDst, nSrc, transform.ErrShortDst
-				}
-				return
-			}
+		case idx == len(src[nSrc:])-2 && !atEOF && ishex(src[nSrc+idx+1]):
 			n := copy(dst[nDst:], src[nSrc:nSrc+idx])
 			nDst += n
 			nSrc += n
@@ -214,26 +208,29 @@ func (t unescapeMapping) Transform(dst, src []byte, atEOF bool) (nDst, nSrc int,
 				return nDst, nSrc, transform.ErrShortDst
 			}
 			return nDst, nSrc, transform.ErrShortSrc
+		case idx == len(src[nSrc:])-2:
+			// The backslash cannot start an escape sequence, but the byte after it
+			// may: copy through the backslash only and look again.
+			n := copy(dst[nDst:], src[nSrc:nSrc+idx+1])
+			nDst += n
+			nSrc += n
+			if n != idx+1 {
+				return nDst, nSrc, transform.ErrShortDst
+			}
+			continue
 		}
 
 		if shouldUnescape(src[nSrc+idx+1 : nSrc+idx+3]) {
 			n := copy(dst[nDst:], src[nSrc:nSrc+idx])
 			nDst += n
 			nSrc += n
-			if n != idx {
+			if n != idx || nDst == len(dst) {
 				return nDst, nSrc, transform.ErrShortDst
 			}
-			if n == 0 {
-				n++
-			}
-			n = copy(dst[nDst:], []byte{
-				unhex(src[nSrc+n])<<4 | unhex(src[nSrc+n+1]),
-			})
-			nDst += n
+			// src[nSrc] is the backslash.
+			dst[nDst] = unhex(src[nSrc+1])<<4 | unhex(src[nSrc+2])
+			nDst++
 			nSrc += 3
-			if n != 1 {
-				return nDst, nSrc, transform.ErrShortDst
-			}
 			continue
 		}
 		n := copy(dst[nDst:], src[nSrc:nSrc+idx+1])
